@@ -854,6 +854,67 @@ func (sh *Shared) strConsts(names string) []string {
 	return out
 }
 
+// sizeCandidates: boundary sizes derived from the integer constants in the
+// SSA of the named functions/files of the package under test.
+func (sh *Shared) sizeCandidates(names string, max int) []int {
+	want := map[string]bool{}
+	for _, n := range strings.Split(names, ",") {
+		want[strings.TrimSpace(n)] = true
+	}
+	seen := map[int]bool{max: true}
+	var scan func(f *ssa.Function)
+	scan = func(f *ssa.Function) {
+		for _, b := range f.Blocks {
+			for _, in := range b.Instrs {
+				for _, op := range in.Operands(nil) {
+					c, ok := (*op).(*ssa.Const)
+					if !ok || c.Value == nil || c.Value.Kind() != constant.Int {
+						continue
+					}
+					if bt, isB := c.Type().Underlying().(*types.Basic); !isB || bt.Kind() != types.Int {
+						continue
+					}
+					if iv, exact := constant.Int64Val(c.Value); exact && iv > 2 && iv <= int64(max) {
+						for _, d := range []int{-1, 0, 1} {
+							if v := int(iv) + d; v <= max {
+								seen[v] = true
+							}
+						}
+					}
+				}
+			}
+		}
+		for _, a := range f.AnonFuncs {
+			scan(a)
+		}
+	}
+	for f := range ssautil.AllFunctions(sh.prog) {
+		if f.Pkg != sh.pkg || f.Parent() != nil || strings.HasPrefix(f.Name(), "vp") {
+			continue
+		}
+		if want[f.Name()] || (f.Pos().IsValid() && want["*"+filepath.Base(sh.prog.Fset.Position(f.Pos()).Filename)]) {
+			scan(f)
+		}
+	}
+	var out []int
+	for v := range seen {
+		out = append(out, v)
+	}
+	sort.Ints(out)
+	return out
+}
+
+// concretizeAmong forks over the candidate values of t (which the path
+// condition confines to cands) and returns the index chosen on this path.
+func (e *Engine) concretizeAmong(t *Term, cands []int) int {
+	for i, v := range cands {
+		if i == len(cands)-1 || e.decide(tEq(t, mkInt(int64(v)))) {
+			return i
+		}
+	}
+	return len(cands) - 1
+}
+
 // constChars: character-class body of the printable bytes found in string
 // constants and small integer (byte/rune) constants of the named functions.
 func (sh *Shared) constChars(names string) string {
